@@ -205,6 +205,8 @@ func (c *DefaultsCase) runImpl() string {
 	var outs []string
 	lawIdem, lawExt, lawNil, lawTyped := "1", "1", "1", "1"
 	schemaHasNull := strings.Contains(renderJSON(c.Doc), "null")
+	// a declared default {} is a legitimate empty insertion (its completion may not fit the element type)
+	declaresEmpty := strings.Contains(strings.ReplaceAll(renderJSON(c.Doc), " ", ""), "\"default\":{}")
 	nTyped := 0
 	why := "-"
 	for _, d := range c.Docs {
@@ -270,7 +272,7 @@ func (c *DefaultsCase) runImpl() string {
 				lawTyped = "0"
 				why = fmt.Sprintf("t%d:differs:%s/%s", ti, bt, b1)
 			}
-			if !extends(orig, tr) || !extends(tr, v) || emptyInserted(orig, tr, v) {
+			if !extends(orig, tr) || !extends(tr, v) || (!declaresEmpty && emptyInserted(orig, tr, v)) {
 				lawTyped = "0"
 				why = fmt.Sprintf("t%d:between:%v,%v,%v:%s/%s/%s", ti, extends(orig, tr), extends(tr, v), emptyInserted(orig, tr, v), renderJSON(d), bt, b1)
 			}
